@@ -91,6 +91,7 @@ theorem exec_filesOK (cfg : KConfig) (r : Req) (s : KState) (res : KState × Str
   | resetInterrupted => exact resetInterrupted_preserves s _ hp (unitOut_ok h)
   | rescanEnv => exact rescanEnvVars_preserves cfg s _ hp (unitOut_ok h)
   | reconcile => exact reconcileTargets_preserves cfg s _ hp (unitOut_ok h)
+  | checkConsistency => exact checkConsistency_preserves s _ hp (unitOut_ok h)
 
 theorem step_filesOK (cfg : KConfig) (r : Req) (s : KState) (hp : FilesOK s) : FilesOK (s.step cfg r) := by
   unfold KState.step
